@@ -37,7 +37,7 @@ ASSUMPTIONS = [
 ]
 BOUNDS = {
     "quick": "depth 2 from the fresh state on 4 grids; depth 1 from 3 seed states (saturated, saturated-reverse, chunked); depth 2 over two live grids on the state-changing alphabet; JIT-off: depth 1 on 2 grids",
-    "thorough": "depth 3 from the fresh state on 4 grids (state-merged); depth 2 from 3 seed states; depth 2 over two live grids on the full alphabet, depth 3 on the state-changing alphabet; JIT-off: depth 2 on 2 grids",
+    "thorough": "depth 3 from the fresh state on 5 grids incl. the MPAS-read one (state-merged); depth 2 from 3 seed states; depth 2 over two live grids (two pairs) on the full alphabet, depth 3 on the state-changing alphabet for the first pair; JIT-off: depth 2 on 2 grids",
 }
 
 EVENTS = E.build_events()
@@ -155,7 +155,9 @@ def run(ctx):
             _bfs(ctx, s, 2, [()], label="two-grids/full")
             alpha = _changing_alphabet(ctx, s, ("A", "B"))
             ctx.extra.setdefault("changing_alphabet", {})[s] = len(alpha)
-            _bfs(ctx, s, 3, [()], alphabet=alpha, label="two-grids/state-changing")
+            # depth 3 over the state-changing events is 1.6 M transitions per pair: done on the first pair only (the second pair
+            # differs in which grid is the larger one and keeps its full depth-2 search)
+            _bfs(ctx, s, 3 if s == "pair" else 2, [()], alphabet=alpha, label="two-grids/state-changing")
     _jitoff_pass(ctx)
 
 
